@@ -138,7 +138,7 @@ func main() {
 				if b, err := os.ReadFile(filepath.Join(*verif, "KNOWN_FINDINGS.json")); err == nil {
 					os.WriteFile(filepath.Join(vd, "KNOWN_FINDINGS.json"), b, 0o644)
 				}
-				return c.Finish(vd, def.Level, def.Explanation, def.Assumptions, trustedBase, time.Now(), 0, map[string]interface{}{})
+				return c.Finish(vd, def.Level, strings.TrimSpace(def.Explanation+" "+moreExplanation[def.ID]), def.Assumptions, trustedBase, time.Now(), 0, map[string]interface{}{})
 			}()
 			fmt.Printf("RESULT %s rc=%d\n", id, code)
 			if code > worst {
@@ -247,7 +247,7 @@ func main() {
 			os.WriteFile(filepath.Join(vd, "KNOWN_FINDINGS.json"), b, 0o644)
 		}
 	}
-	code := c.Finish(vd, def.Level, def.Explanation, def.Assumptions, trustedBase, start, seed, extra)
+	code := c.Finish(vd, def.Level, strings.TrimSpace(def.Explanation+" "+moreExplanation[def.ID]), def.Assumptions, trustedBase, start, seed, extra)
 	if *noEvidence {
 		os.RemoveAll(vd)
 	}
